@@ -14,12 +14,20 @@ open PV PV.Model.ArpHunt PV.Drv.Accept
       Oc<k>                          ProcessPacket(other ARP)    Or<k>
       F<mac>   forged announcement written      T<mac>   restoring request written
       Y<mac>   forged reply written             J<mac>:<ip>   probe-reject reply written
-  hidden steps: check / gate / exitRead / wake of every loop, the atomic step of an open call.
-  Wall-clock refinement (acceptor only): a loop that entered its `select` at time t leaves it through
-  the 6 s ticker not before t + 5800 ms, or at once after Close.
+      (a frame is logged when the connection's WriteTo returns)
+  hidden steps: check / wake of every loop, the atomic step of an open call – all enabled only while
+  no thread holds `arpMutex` across its frame (`State.holder`): a loop from its lookup to its
+  announcement / restoring request, ProcessPacket from its lookup to the forged reply.  A forged frame
+  logged after the `Xr` of a StopHunt of that MAC (or a forged frame after a `T` without StartHunt in
+  between) therefore has no interleaving.
+  Wall-clock refinement (acceptor only): the loop's 6 s ticker is created when the loop starts, so the
+  n-th time a loop leaves its `select` through the ticker is not before (start of the loop) + n · 6 s
+  (minus 200 ms measurement slack) – a lower bound that stays valid when a write is slow; after
+  Close the `select` returns at once.
 -/
 
-def minCycleMs : Nat := 5800
+def cycleMs : Nat := 6000
+def slackMs : Nat := 200
 
 inductive Op where
   | start (mac : Bytes) (valid : Bool)
@@ -35,6 +43,8 @@ structure AState where
   tprev : Nat := 0
   tnext : Nat := 0
   waits : List (Nat × Nat × Bool) := []
+  /-- per loop: earliest time it can have been started, ticker wake-ups so far -/
+  ticks : List (Nat × Nat × Nat) := []
 
 inductive ObsK where
   | call (k : Nat) (op : Op)
@@ -46,8 +56,10 @@ structure Obs where
   t : Nat
 
 def pcStr : Pc → String
-  | .check => "c" | .gate h => if h then "g1" else "g0" | .exitRead => "x" | .restore => "r"
-  | .forge => "f" | .wait => "w" | .done => "d"
+  | .check => "c" | .restore => "r" | .forge => "f" | .wait => "w" | .done => "d"
+
+def holderStr : Option Holder → String
+  | none => "-" | some (.loop i) => s!"L{i}" | some (.rx m) => "R" ++ toHex m
 
 def opStr : Op → String
   | .start m _ => "start " ++ toHex m | .stop m ip => "stop " ++ toHex m ++ " ip " ++ toHex ip | .close => "close"
@@ -62,7 +74,7 @@ def outStr : Option Out → String
 def AState.key (a : AState) : String :=
   let ls := (List.range a.s.nloops).map (fun i => toHex (a.s.loops i).mac ++ ":" ++ pcStr (a.s.loops i).pc)
   let ops := a.open_.map (fun (k, op, o) => s!"{k}{opStr op}{outStr o}")
-  s!"{a.s.hunt.map toHex}|{a.s.closed}|{a.s.replies.map toHex}|{ls}|{ops}|{a.waits}"
+  s!"{a.s.hunt.map toHex}|{a.s.closed}|{holderStr a.s.holder}|{ls}|{ops}|{a.waits}|{a.ticks}"
 
 def evOf : Op → Event
   | .start m v => .startHunt m v
@@ -81,14 +93,21 @@ def noteWait (a : AState) (before : State) (i : Nat) (t : Nat) : AState :=
 
 def hidden (a : AState) : List AState :=
   let loops := (List.range a.s.nloops).flatMap (fun i =>
-    let plain := [Event.check i, .gate i, .exitRead i].filterMap (fun e =>
+    let plain := [Event.check i].filterMap (fun e =>
       (step a.s e).map (fun (s', _) => { a with s := s' }))
     let wk := match step a.s (.wake i) with
       | some (s', _) =>
-        match a.waits.find? (fun w => w.1 = i) with
-        | some (_, since, early) =>
-          if early ∨ since + minCycleMs ≤ a.tnext then [noteWait { a with s := s' } a.s i a.tprev] else []
-        | none => [noteWait { a with s := s' } a.s i a.tprev]
+        let early := match a.waits.find? (fun w => w.1 = i) with
+          | some (_, _, early) => early
+          | none => false
+        let byClose := if early then [noteWait { a with s := s' } a.s i a.tprev] else []
+        let byTicker := match a.ticks.find? (fun w => w.1 = i) with
+          | some (_, born, n) =>
+            if born + cycleMs * (n + 1) ≤ a.tnext + slackMs then
+              [noteWait { a with s := s', ticks := a.ticks.map (fun w => if w.1 = i then (i, born, n + 1) else w) } a.s i a.tprev]
+            else []
+          | none => [noteWait { a with s := s' } a.s i a.tprev]
+        byClose ++ byTicker
       | none => []
     plain ++ wk)
   let ops := a.open_.filterMap (fun (k, op, done) =>
@@ -97,7 +116,10 @@ def hidden (a : AState) : List AState :=
     | none, .probe _ _ _ _ => none        -- decided when the reject frame is (not) observed
     | none, _ => (step a.s (evOf op)).map (fun (s', o) =>
         let wakes := match op with | .close => true | _ => false
+        -- a loop started by this step: its ticker is created after the last observed event
+        let ticks := if s'.nloops > a.s.nloops then (a.s.nloops, a.tprev, 0) :: a.ticks else a.ticks
         { a with s := s', open_ := a.open_.map (fun x => if x.1 = k then (k, op, some o) else x),
+                 ticks := ticks,
                  waits := if wakes then a.waits.map (fun (i, t, _) => (i, t, true)) else a.waits }))
   loops ++ ops
 
@@ -120,6 +142,10 @@ def applyObs (a : AState) (o : Obs) : List AState :=
       match step a.s (.rxProbe m off tip l) with
       | some (_, .none) => [{ a with open_ := a.open_.filter (fun x => x.1 ≠ k) }]
       | _ => []
+    | some (_, .req _ m _, some out) =>
+      -- ProcessPacket returns after the forged reply it decided was written
+      if a.s.holder = some (.rx m) then []
+      else if outStr (some out) = res ∨ res = "-" then [{ a with open_ := a.open_.filter (fun x => x.1 ≠ k) }] else []
     | some (_, _, some out) =>
       if outStr (some out) = res ∨ res = "-" then [{ a with open_ := a.open_.filter (fun x => x.1 ≠ k) }] else []
     | _ => []
@@ -184,9 +210,9 @@ def obsName (o : Obs) : String :=
   match o.k with
   | .call k op => s!"call {k} {opStr op}"
   | .ret k r => s!"return {k} {r}"
-  | .forged m => s!"forged announcement to {toHex m} at {o.t} ms (one loop per MAC, 6 s ticker)"
-  | .restoring m => s!"restoring request to {toHex m} at {o.t} ms"
-  | .spoofReply m => s!"forged reply to {toHex m}"
+  | .forged m => s!"forged announcement to {toHex m} at {o.t} ms (a loop forges only inside the critical section whose lookup found its MAC hunted and the handler open; one loop per accepted StartHunt, 6 s ticker)"
+  | .restoring m => s!"restoring request to {toHex m} at {o.t} ms (written inside the critical section whose lookup did not find the MAC)"
+  | .spoofReply m => s!"forged reply to {toHex m} at {o.t} ms (written inside the critical section of ProcessPacket whose lookup found the ARP sender hunted)"
   | .probeReject m ip => s!"probe reject to {toHex m} for {toHex ip}"
 
 def machine : Machine AState Obs :=
